@@ -70,3 +70,20 @@ Theorem C03_arbitrary_transport_error_ends_side :
 Proof. exact transport_error_ends_side. Qed.
 Print Assumptions C03_arbitrary_transport_error_ends_side.
 
+
+(* "a user approval given at any moment while the request is pending", across prolongation
+   rounds (patient mode, PairPatient.v): while the user has not acted the pending server's timer
+   may expire any number of times - each expiry sends a prolongation request, the client answers,
+   both re-arm - and the approval or cancel comes between any two rounds; no other timer expires
+   before the user has acted.  Every reachable state of every configuration is safe, and every
+   state without successor is a correct outcome (both complete on an open connection when the
+   server trusts, both ended when it does not).  Partial for the same reason as the timely
+   theorem: the approval is restricted to moments at which no hello of the client is under way
+   (approve_quiet) - the finding recorded for C03 - and liveness across an unbounded number of
+   rounds needs the fairness assumption that the user acts eventually. *)
+From Ship Require Import PairPatient.
+Theorem C03_patient_agreement_partial :
+  forall (cfg : pcfg) (s : pair),
+    reach (patient_next cfg) (pair_init cfg) s -> pat_ok cfg s = true.
+Proof. exact pair_patient_ok. Qed.
+Print Assumptions C03_patient_agreement_partial.
